@@ -50,4 +50,4 @@ def run(ck):
 
 
 def replay(ck, path):
-    run(ck)
+    engine.replay(ck, 'C01', path, run)
